@@ -841,10 +841,13 @@ func search(cases []caseLine) {
 				onlyOff = false
 			}
 		}
-		if onlyOff && c.kind == "SPS" {
+		// the two known findings are accepted only on cases the model-side generator marked as lying
+		// outside the theorems' guards (g = 0: an SPS with non-zero se(v) offsets, a slice whose PPS uses
+		// slice-group map types 3..5); the same fields going wrong on any other case is a new failure
+		if onlyOff && c.kind == "SPS" && c.g == "0" {
 			class = "se-read-as-ue"
 		}
-		if c.kind == "SLICE" {
+		if c.kind == "SLICE" && c.g == "0" {
 			class = classifySlice(r, bad)
 		}
 		if cl := classifyHevc(c, bad); cl != "" {
